@@ -384,7 +384,7 @@ PROPS["C20"] = pbt(
                 "(quick) / {t} (thorough) scenarios, each run under two heap-fill patterns."),
     level_note="allocation-failure paths are not injected; LeakSanitizer reachability semantics (memory reachable from library statics is not a leak)",
     quick={"cases": 32000},
-    thorough={"cases": 1000000},
+    thorough={"cases": 500000},
     floors={"fault_in_dropin|layered_read": 0.30, "fault_callback_rejection|layered_read": 0.10, "fault_malformed_line|layered_read": 0.10,
             "fault_dangling_symlink|layered_read": 0.08, "fault_vanished_in_callback|layered_read": 0.08,
             "fault_foreign_owner|layered_read": 0.08},
